@@ -142,8 +142,15 @@ def main(tier: str) -> int:
     runs.insert(0, ("SHAGA", dict(pop_size=3, iters=25, objective="onemax", str_len=30, seed=2, elitism=True, keep_history=True)))
     for cn, cfg in runs:
         d = {"optimizer": cn, **cfg}
-        with np.errstate(all="ignore"):
-            rec, log = observe(cn, cfg)
+        try:
+            with np.errstate(all="ignore"):
+                rec, log = observe(cn, cfg)
+        except AttributeError as e:
+            if cfg["objective"] == "fail_lo" and "_genotype" in str(e):
+                # every individual of the first generation failed: the record is never set (outside every stated domain, DESIGN section 7)
+                chk.count("first_generation_all_failed")
+                continue
+            raise
         opt = rec.opt
         chk.count(cn)
         chk.case((cn, json.dumps(cfg, sort_keys=True)), sample=d if len(chk.samples) < 4 else None)
